@@ -11,7 +11,8 @@ EXTRA = {"C08-muladd-copy-removed-equal-operands": ["C07"], "C09-reduce-width-co
          "C10-hashornoop-threshold4": ["C12"], "C12-hashnopad-lastchunk": ["C10"], "C12-hashornoop-width4": ["C10"],
          "C14-width-rounded-to-16": ["C06"], "C15-randomaccess-args-swapped": ["C18"]}
 only = sys.argv[1:]
-res_path = os.path.join(ROOT, "seeded", "MATRIX.json")
+res_path = os.environ.get("MATRIX_JSON", os.path.join(ROOT, "seeded", "MATRIX.json"))
+md_path = os.environ.get("MATRIX_MD", os.path.join(ROOT, "seeded", "MATRIX.md"))
 res = json.load(open(res_path)) if os.path.exists(res_path) else {}
 names = sorted(d for d in os.listdir(os.path.join(ROOT, "seeded")) if os.path.isdir(os.path.join(ROOT, "seeded", d)))
 for name in names:
@@ -38,7 +39,8 @@ for name in names:
 for f in os.listdir(os.path.join(ROOT, "bin")):
     if f.startswith("alt-") or f.startswith("props-"):
         os.remove(os.path.join(ROOT, "bin", f))
-with open(os.path.join(ROOT, "seeded", "MATRIX.md"), "w") as f:
+with open(md_path, "w") as f:
+    f.write("Quick tier, VERIF_SEED=%s.\n\n" % os.environ.get("VERIF_SEED", "1"))
     f.write("| seeded change | breaks | needs | caught by (quick tier) | first report |\n|---|---|---|---|---|\n")
     for name in names:
         meta = json.load(open(os.path.join(ROOT, "seeded", name, "meta.json")))
